@@ -28,6 +28,12 @@
 //!                                  -> from_archive_index -> build -> parse, answered
 //!                                  `ok n=<count> h=<fnv64 of the entry listing>` / `err`, compared
 //!                                  with C03's Model/ArchiveIndex.buildParse applied twice
+//!   bp <fmt> <parameters…>         builder program given by parameters (see the `bp` section below):
+//!                                  install / download builder-as-mutator programs from new() and from a
+//!                                  manifest of every version, BLTE chunk counts, TVFS file counts at the
+//!                                  offset-width thresholds, count / width families of every builder;
+//!                                  install bytes, BLTE table head and TVFS sizing are compared with the
+//!                                  models, the rest is answered `-`
 //! Every accepted input of a format that has a builder-as-mutator constructor (archive index, root,
 //! install, download, encoding) is additionally taken through parsed value -> from_*(value) ->
 //! [add an entry -> remove it] -> build -> parse and must come back with the same logical content.
